@@ -620,8 +620,79 @@ def fetch_unit(iset):
     return Unit(uid, ['C13'], symbolic, replay, {'contracts': {}}, meta={'function': '%s.ArmV6.fetch_instruction' % A.__module__, 'also': ALSO_MEM})
 
 
+def dispatch_unit(memarch):
+    """ArmV6.translate_address: the regime's translation (translate_address_v under VMSA, translate_address_p under PMSA) is
+    called once with exactly the arguments of the request and its descriptor is what the caller gets; the accessors above and
+    the whole-step units use translate_address by contract, the regime functions are verified in C14 / C15."""
+    m = registry.mods()
+    A = m.arm_v6.ArmV6
+    uid = 'C13/fn:%s.ArmV6.translate_address[%s]' % (A.__module__, memarch.lower())
+
+    def symbolic(eng):
+        log = eng.register([])
+        hub = AbsHub(eng, log)
+        mach = MC.SymMachine(eng, memarch, 1, mem=hub)
+        cpu = mach.cpu
+        init = dict(mach.init)
+        va = eng.fresh_int('va', 32)
+        size = eng.fresh_int('size', 4)
+        ispriv, iswrite, wasal = eng.fresh_bool('ispriv'), eng.fresh_bool('iswrite'), eng.fresh_bool('wasaligned')
+        marker = eng.new_obj(m.address_descriptor.AddressDescriptor, {'memattrs': None, 'paddress': None})
+        calls = eng.register([])
+
+        def tv(e, c, va_, ispriv_, iswrite_, size_, wasaligned_):
+            calls.append(('v', c, va_, ispriv_, iswrite_, size_, wasaligned_))
+            return marker
+
+        def tp(e, c, va_, ispriv_, iswrite_, wasaligned_):
+            calls.append(('p', c, va_, ispriv_, iswrite_, None, wasaligned_))
+            return marker
+        contracts = {}
+        contracts.update(registry.l1())
+        contracts.update(registry.regview())
+        contracts.update(registry.l2())
+        contracts[A.translate_address_v] = Contract(A.translate_address_v, tv, engine=True)
+        contracts[A.translate_address_p] = Contract(A.translate_address_p, tp, engine=True)
+        eng.contracts = contracts
+        try:
+            r = eng.call(A.translate_address, [cpu, va, ispriv, iswrite, size, wasal])
+        except PyRaise as e:
+            eng.oblige('safe.host', 'translate_address raises %s' % e.exc.cls.__name__, False, detail=str(e.exc.attrs.get('args')))
+            return
+        own_frame(eng, 'translate_address')
+        want = 'v' if memarch == 'VMSA' else 'p'
+        ok = len(calls) == 1 and calls[0][0] == want and calls[0][1] is cpu
+        eng.oblige('post', 'translate_address calls the %s translation exactly once, on this processor' % memarch, ok)
+        if ok:
+            _, _, va_, ip_, iw_, sz_, wa_ = calls[0]
+            same = [('va', values_eq(va_, va)), ('ispriv', sym.eq(sym.truth(ip_), sym.truth(ispriv))), ('iswrite', sym.eq(sym.truth(iw_), sym.truth(iswrite))),
+                    ('wasaligned', sym.eq(sym.truth(wa_), sym.truth(wasal)))]
+            if want == 'v':
+                same.append(('size', values_eq(sz_, size)))
+            eng.oblige_all('post', 'the request (address, privilege, direction, size, alignment) is handed on unchanged', same)
+        eng.oblige('post', 'the descriptor of the regime translation is returned', r is marker)
+        eng.oblige_all('frame', 'translate_address itself changes no register', [(k, values_eq(v, init[k])) for k, v in mach.read().items()])
+
+    def replay(inputs, ob):
+        ncpu = MC.native_cpu(memarch, 1, fresh=True)
+        MC.install_native(ncpu, dict(inputs), memarch, 1)
+        seen = []
+        marker = object()
+        ncpu.translate_address_v = lambda va, ispriv, iswrite, size, wasaligned: (seen.append(('v', va, bool(ispriv), bool(iswrite), size, bool(wasaligned))), marker)[1]
+        ncpu.translate_address_p = lambda va, ispriv, iswrite, wasaligned: (seen.append(('p', va, bool(ispriv), bool(iswrite), None, bool(wasaligned))), marker)[1]
+        a = (inputs.get('va', 0), bool(inputs.get('ispriv')), bool(inputs.get('iswrite')), inputs.get('size', 0), bool(inputs.get('wasaligned')))
+        try:
+            r = ncpu.translate_address(*a)
+        except Exception as e:      # noqa
+            return True, 'translate_address%r raised %s: %s' % (a, type(e).__name__, e)
+        want = ('v', a[0], a[1], a[2], a[3], a[4]) if memarch == 'VMSA' else ('p', a[0], a[1], a[2], None, a[4])
+        return (seen != [want] or r is not marker), 'translate_address%r: regime calls %r (architectural %r), descriptor returned: %s' % (a, seen, [want], r is marker)
+    return Unit(uid, ['C13', 'C14', 'C15', 'C02', 'C03'], symbolic, replay, {'contracts': {}},
+                meta={'function': '%s.ArmV6.translate_address' % A.__module__, 'also': ALSO_MEM})
+
+
 def units(tier):
-    out = [fetch_unit('arm'), fetch_unit('thumb')]
+    out = [fetch_unit('arm'), fetch_unit('thumb'), dispatch_unit('PMSA'), dispatch_unit('VMSA')]
     for size in (1, 2, 4, 8):
         out.append(make_unit('mem_a_with_priv_get', size, False, 'A'))
         out.append(make_unit('mem_a_with_priv_set', size, True, 'A'))
